@@ -742,3 +742,23 @@ package main
 //@   atcall (*RuntimeState).initEmailDefaults sets ghostNewState *RuntimeState (s2 *RuntimeState) :: s2
 //@   atcall gopkg.in/yaml.v2.Unmarshal sets ghostConfigParsed bool (in []byte, out any, err2 error) :: err2 == nil
 //@   atcall golang.org/x/time/rate.NewLimiter requires (r rate.Limit, b int) :: ghostConfigParsed && ghostNewState != nil && same(r, ghostNewState.Config.Base.PasswordAttemptGlobalRateLimit) && b == int(ghostNewState.Config.Base.PasswordAttemptGlobalBurstLimit)   #C14.limiter-from-parsed-configuration @C14
+
+// ---- C10: a key that cannot be parsed, or is too weak, is the client's error (4xx) on the automation paths --------
+//@ ghost var ghostKeyRefused bool
+//@ ghost var ghostParamsUserError bool
+//@ func (*RuntimeState).parseRoleCertGenParams
+//@   atcall crypto/x509.ParsePKIXPublicKey sets ghostKeyRefused bool (der []byte, pub any, err2 error) :: true if err2 != nil
+//@   atcall certgen.ValidatePublicKeyStrength sets ghostKeyRefused bool (pub any, ok bool, err2 error) :: true if !ok && err2 == nil
+//@   ensures !old(ghostKeyRefused) && ghostKeyRefused ==> userErr != nil && err == nil   #C10.role-bad-key-is-the-clients-error @C10
+//@ func (*RuntimeState).parseRefreshRoleCertGenParams
+//@   atcall crypto/x509.ParsePKIXPublicKey sets ghostKeyRefused bool (der []byte, pub any, err2 error) :: true if err2 != nil
+//@   atcall certgen.ValidatePublicKeyStrength sets ghostKeyRefused bool (pub any, ok bool, err2 error) :: true if !ok && err2 == nil
+//@   ensures !old(ghostKeyRefused) && ghostKeyRefused ==> userErr != nil && err == nil   #C10.refresh-bad-key-is-the-clients-error @C10
+//@ func (*RuntimeState).roleRequetingCertGenHandler
+//@   handler getRoleRequestingPath
+//@   atcall (*RuntimeState).parseRoleCertGenParams sets ghostParamsUserError bool (s2 *RuntimeState, r2 *http.Request, params *roleRequestingCertGenParams, userErr error, err2 error) :: userErr != nil && err2 == nil
+//@   atcall (*RuntimeState).writeFailureResponse requires (s2 *RuntimeState, w2 http.ResponseWriter, r2 *http.Request, code int, msg string) :: ghostParamsUserError ==> 400 <= code && code < 500   #C10.role-client-error-status @C10
+//@ func (*RuntimeState).refreshRoleRequestingCertGenHandler
+//@   handler refreshRoleRequestingCertPath
+//@   atcall (*RuntimeState).parseRefreshRoleCertGenParams sets ghostParamsUserError bool (s2 *RuntimeState, authData2 *authInfo, r2 *http.Request, params *roleRequestingCertGenParams, userErr error, err2 error) :: userErr != nil && err2 == nil
+//@   atcall (*RuntimeState).writeFailureResponse requires (s2 *RuntimeState, w2 http.ResponseWriter, r2 *http.Request, code int, msg string) :: ghostParamsUserError ==> 400 <= code && code < 500   #C10.refresh-client-error-status @C10
